@@ -336,6 +336,13 @@ def uniform(ctx, name, ptypes, consts, tpaths, op, operand, extra=None, extra_al
   want.update(extra or {})
   for p, (wop, wopd) in sorted(want.items()):
     def as_aug(w):
+      # a value computed by a nested one-return helper (`scaled(x)` for `x * factor`) is read through the helper
+      if w.op == 'store' and isinstance(w.value, ast.Call) and isinstance(w.value.func, ast.Name) and w.value.func.id in getattr(fi, 'nested', {}):
+        import copy as _copy
+        w2 = _copy.copy(w)
+        w2.value = U.inline_nested(fi, w.value)
+        if isinstance(w2.value, ast.BinOp):
+          return as_aug(w2)
       # `x = x <op> e` (and `x = e <op> x` for + and *) is the same update as `x <op>= e`
       if w.op == 'store' and isinstance(w.value, ast.BinOp) and isinstance(w.stmt, ast.Assign) and len(w.stmt.targets) == 1:
         t = norm_text(w.stmt.targets[0])
